@@ -836,4 +836,143 @@ theorem zipNodeAttrs_eq {s : HG} (h : Aligned s) :
 theorem zipEdgeAttrs_eq {s : HG} (h : Aligned s) :
     zipEdgeAttrs s = s.edges.map (fun e => ({ members := s.mem e, idx := none, attr := s.eattr e } : EdgeItem)) := by
   unfold zipEdgeAttrs; rw [h.e, List.zip_map', List.map_map]; rfl
+
+/-! ### removing edges -/
+
+/-- everything but the edge list, the memberships and the attribute key sets is the same -/
+structure SameTables (t c : HG) : Prop where
+  nodes : t.nodes = c.nodes
+  mem : t.mem = c.mem
+  eattr : t.eattr = c.eattr
+  nattr : t.nattr = c.nattr
+  net : t.net = c.net
+  frozen : t.frozen = c.frozen
+  uid : t.uid = c.uid
+
+theorem SameTables.refl (c : HG) : SameTables c c := ⟨rfl, rfl, rfl, rfl, rfl, rfl, rfl⟩
+
+theorem SameTables.trans {a b c : HG} (h1 : SameTables a b) (h2 : SameTables b c) : SameTables a c :=
+  ⟨h1.nodes.trans h2.nodes, h1.mem.trans h2.mem, h1.eattr.trans h2.eattr, h1.nattr.trans h2.nattr,
+   h1.net.trans h2.net, h1.frozen.trans h2.frozen, h1.uid.trans h2.uid⟩
+
+theorem dropEdge_tables (t : HG) (e : PyId) : SameTables (dropEdge t e) t ∧ (dropEdge t e).edges = t.edges.filter (· ≠ e) := by
+  unfold dropEdge; exact ⟨⟨rfl, rfl, rfl, rfl, rfl, rfl, rfl⟩, by simp [rm]⟩
+
+theorem foldl_dropEdge_fields (l : List PyId) (t : HG) :
+    SameTables (l.foldl dropEdge t) t ∧ (l.foldl dropEdge t).edges = t.edges.filter (· ∉ l) := by
+  induction l generalizing t with
+  | nil => exact ⟨SameTables.refl t, by simp; exact (List.filter_eq_self.2 (fun _ _ => rfl)).symm⟩
+  | cons e rest ih =>
+    simp only [List.foldl_cons]
+    obtain ⟨h1, h2⟩ := ih (dropEdge t e)
+    obtain ⟨d1, d2⟩ := dropEdge_tables t e
+    refine ⟨h1.trans d1, ?_⟩
+    rw [h2, d2, List.filter_filter]
+    apply List.filter_congr; intro x _
+    by_cases hx : x = e <;> simp [hx]
+
+theorem removeEdges_spec (l : List PyId) (t : HG) (hl : l.Nodup) (hin : ∀ e ∈ l, e ∈ t.edges) :
+    (removeEdgesFrom t l).2 = .ok ∧ SameTables (removeEdgesFrom t l).1 t ∧
+    (removeEdgesFrom t l).1.edges = t.edges.filter (· ∉ l) := by
+  unfold removeEdgesFrom
+  induction l generalizing t with
+  | nil => exact ⟨rfl, SameTables.refl t, by simp [bulk]; exact (List.filter_eq_self.2 (fun _ _ => rfl)).symm⟩
+  | cons e rest ih =>
+    have hstep : removeEdge t e = (dropEdge t e, .ok) := by
+      unfold removeEdge; simp [hin e (by simp)]
+    rw [bulk_cons_ok _ t _ e rest hstep]
+    obtain ⟨d1, d2⟩ := dropEdge_tables t e
+    simp only [List.nodup_cons] at hl
+    obtain ⟨g1, g2, g3⟩ := ih (dropEdge t e) hl.2 (by
+      intro x hx; rw [d2, List.mem_filter]
+      refine ⟨hin x (by simp [hx]), ?_⟩
+      simp only [ne_eq, decide_not, Bool.not_eq_eq_eq_not, Bool.not_true, decide_eq_false_iff_not]
+      intro heq; subst heq; exact hl.1 hx)
+    refine ⟨g1, g2.trans d1, ?_⟩
+    rw [g3, d2, List.filter_filter]
+    apply List.filter_congr; intro x _
+    by_cases hx : x = e <;> simp [hx]
+
+/-! ### `remove_simplex_ids_from` -/
+
+theorem removeSimplexId_fields (t : HG) (idx : PyId) (h : idx ∈ t.edges) :
+    (removeSimplexId t idx).2 = .ok ∧ SameTables (removeSimplexId t idx).1 t ∧
+    (removeSimplexId t idx).1.edges =
+      t.edges.filter (fun j => j ∉ t.edges.filter (fun j => properSubset (t.mem idx) (t.mem j)) ∧ j ≠ idx) := by
+  unfold removeSimplexId
+  simp only [h, not_true_eq_false, if_false]
+  obtain ⟨f1, f2⟩ := foldl_dropEdge_fields (t.edges.filter (fun j => properSubset (t.mem idx) (t.mem j))) t
+  obtain ⟨d1, d2⟩ := dropEdge_tables ((t.edges.filter (fun j => properSubset (t.mem idx) (t.mem j))).foldl dropEdge t) idx
+  refine ⟨trivial, d1.trans f1, ?_⟩
+  rw [d2, f2, List.filter_filter]
+  apply List.filter_congr; intro x _
+  simp only [Bool.decide_and, and_comm]
+
+theorem rsi_loop (c : HG) (all B : List PyId)
+    (hB : ∀ i ∈ B, i ∈ c.edges) (hall : ∀ i ∈ B, i ∈ all)
+    (hclosed : ∀ i ∈ B, ∀ j ∈ c.edges, properSubset (c.mem i) (c.mem j) = true → j ∈ B)
+    (rest : List PyId) (hrest : ∀ i ∈ rest, i ∈ B)
+    (t : HG) (R : List PyId) (hR : ∀ i ∈ R, i ∈ B) (ht : SameTables t c) (hte : t.edges = c.edges.filter (· ∉ R)) :
+    (bulk (fun t idx => if idx ∈ all ∧ idx ∉ t.edges then (t, Outcome.ok) else removeSimplexId t idx) t rest).2 = .ok ∧
+    SameTables (bulk (fun t idx => if idx ∈ all ∧ idx ∉ t.edges then (t, Outcome.ok) else removeSimplexId t idx) t rest).1 c ∧
+    ∃ R' : List PyId, (∀ i ∈ R', i ∈ B) ∧ (∀ i ∈ R, i ∈ R') ∧ (∀ i ∈ rest, i ∈ R') ∧
+      (bulk (fun t idx => if idx ∈ all ∧ idx ∉ t.edges then (t, Outcome.ok) else removeSimplexId t idx) t rest).1.edges =
+        c.edges.filter (· ∉ R') := by
+  induction rest generalizing t R with
+  | nil => exact ⟨rfl, ht, R, hR, fun _ h => h, by simp, hte⟩
+  | cons idx rest ih =>
+    have hidxB := hrest idx (by simp)
+    by_cases hin : idx ∈ t.edges
+    · -- removed now, together with its strict superfaces
+      obtain ⟨f1, f2, f3⟩ := removeSimplexId_fields t idx hin
+      have hstep : (fun t idx => if idx ∈ all ∧ idx ∉ t.edges then (t, Outcome.ok) else removeSimplexId t idx) t idx =
+          ((removeSimplexId t idx).1, .ok) := by
+        simp only [hin, not_true_eq_false, and_false, if_false]; rw [← f1]
+      rw [bulk_cons_ok _ t _ idx rest hstep]
+      generalize hsup : t.edges.filter (fun j => properSubset (t.mem idx) (t.mem j)) = sup at f3
+      have hsupB : ∀ j ∈ sup, j ∈ B := by
+        intro j hj
+        rw [← hsup] at hj
+        obtain ⟨hj1, hj2⟩ := List.mem_filter.1 hj
+        rw [hte] at hj1
+        rw [ht.mem] at hj2
+        exact hclosed idx hidxB j (List.mem_filter.1 hj1).1 hj2
+      obtain ⟨g1, g2, R', g3, g4, g5, g6⟩ := ih (fun i hi => hrest i (by simp [hi])) (removeSimplexId t idx).1
+        (R ++ sup ++ [idx]) (by
+          intro i hi
+          simp only [List.mem_append, List.mem_singleton] at hi
+          rcases hi with (hi | hi) | hi
+          · exact hR i hi
+          · exact hsupB i hi
+          · subst hi; exact hidxB) (f2.trans ht) (by
+          rw [f3, hte, List.filter_filter]
+          apply List.filter_congr; intro x _
+          rw [Bool.eq_iff_iff]
+          simp only [List.mem_append, List.mem_singleton, not_or, Bool.and_eq_true, decide_eq_true_eq]
+          constructor
+          · rintro ⟨⟨h1, h2⟩, h3⟩; exact ⟨⟨h3, h1⟩, h2⟩
+          · rintro ⟨⟨h3, h1⟩, h2⟩; exact ⟨⟨h1, h2⟩, h3⟩)
+      refine ⟨g1, g2, R', g3, fun i hi => g4 i (by simp [hi]), ?_, g6⟩
+      intro i hi
+      simp only [List.mem_cons] at hi
+      rcases hi with hi | hi
+      · subst hi; exact g4 i (by simp)
+      · exact g5 i hi
+    · -- already removed as a superface
+      have hstep : (fun t idx => if idx ∈ all ∧ idx ∉ t.edges then (t, Outcome.ok) else removeSimplexId t idx) t idx = (t, .ok) := by
+        simp only [hall idx hidxB, hin, not_false_eq_true, and_self, if_true]
+      rw [bulk_cons_ok _ t _ idx rest hstep]
+      obtain ⟨g1, g2, R', g3, g4, g5, g6⟩ := ih (fun i hi => hrest i (by simp [hi])) t R hR ht hte
+      refine ⟨g1, g2, R', g3, g4, ?_, g6⟩
+      intro i hi
+      simp only [List.mem_cons] at hi
+      rcases hi with hi | hi
+      · subst hi
+        -- idx is an edge of c that is no longer in t: it is in R
+        have : i ∈ R := by
+          by_cases hnR : i ∈ R
+          · exact hnR
+          · exfalso; apply hin; rw [hte, List.mem_filter]; exact ⟨hB i hidxB, by simpa using hnR⟩
+        exact g4 i this
+      · exact g5 i hi
 end Xgi.C19
